@@ -42,6 +42,16 @@ def exceptionLines (text : List Char) : List (List Char) :=
 def cInsertExceptionsText (h : CHyph) (text : List Char) : CHyph :=
   (exceptionLines text).foldl cInsertException h
 
+/-- `a` occurs in the word as a contiguous block. -/
+def isInfix (a : List Char) : List Char → Bool
+  | [] => a.isEmpty
+  | c :: cs => a.isPrefixOf (c :: cs) || isInfix a cs
+
+/-- The patterns that can match `lw` at all: those whose letters occur in it (used by the driver
+for very large pattern sets; `liang_restrict` shows nothing is lost). -/
+def relevant (ps : List (List Char)) (lw : List Char) : List (List Char) :=
+  ps.filter (fun p => isInfix (parsePat p).letters lw)
+
 /-! ## Histories: one hyphenator, any sequence of loads, inserts and queries
 
 `guard = true`: the code (`cLoadPattern`); `guard = false`: the code before `fixes/C13-b.patch`
